@@ -372,6 +372,9 @@ func (c *Client) Auth(a sasl.Client) error {
 	if err != nil {
 		return err
 	}
+	if err := validateLine(mech); err != nil {
+		return err
+	}
 	var resp64 []byte
 	if len(resp) > 0 {
 		resp64 = make([]byte, encoding.EncodedLen(len(resp)))
